@@ -193,7 +193,7 @@ pub fn check(ctx: &mut Ctx, doc: &Tree, path: &JPath, text: &str) {
 }
 
 pub fn run(ctx: &mut Ctx) {
-    let n = ctx.budget(40_000, 1_500_000);
+    let n = ctx.budget(400_000, 8_000_000);
     let cfg = PathCfg { max_steps: 4, filters: true, big_indices: false };
     for i in 0..n {
         if !ctx.next_case() {
